@@ -146,7 +146,12 @@ class Recorder:
             if amount is None:
                 item = getattr(ev, 'item', 0)
                 amount = self.item_value(item)
-            key = getattr(ev, 'key', (0, 0, False))
+            # the sort key of a priority request is computed here from the documented rule (priority, time of the
+            # request, non-preempting last) - not read from the request object, which the code under test computes
+            if hasattr(ev, 'priority'):
+                key = (ev.priority, self.res._env.now, not getattr(ev, 'preempt', True))
+            else:
+                key = (0, 0, False)
             proc = self.procs.get(getattr(ev, 'proc', None), 0)
             return 'c19 put %d %d %d %d %d %d %d' % (ev._vid, amount, key[0], key[1], int(key[2]),
                                                     int(getattr(ev, 'preempt', True)), proc)
@@ -200,6 +205,7 @@ def gen_scenario(rng, kind=None):
             sc['procs'].append(steps)
     elif kind in ('store', 'filterStore', 'priorityStore'):
         sc['capacity'] = rng.choice([None, 1, 2, 3])
+        sc['pitem'] = kind == 'priorityStore' and rng.random() < 0.5
         for _ in range(nproc):
             steps = []
             for _ in range(rng.randint(1, 3)):
@@ -257,6 +263,9 @@ def run_impl(sc):
         if kind == 'container':
             return res.put(st['amount']) if st['op'] == 'put' else res.get(st['amount'])
         if st['op'] == 'put':
+            if kind == 'priorityStore' and sc.get('pitem'):
+                # items wrapped in PriorityItem (ordered by their priority only; the payload repeats it)
+                return res.put(store.PriorityItem(st['amount'], st['amount']))
             return res.put(st['amount'])
         if kind == 'filterStore':
             return res.get(mk_filter(st.get('filter', 'any')))
@@ -346,6 +355,8 @@ def check_scenario(res, drv, sc, rec):
     sum_put = sum_get = 0
     handed, accepted = [], []
     amounts = {}
+    req_key, req_pre, req_proc = {}, {}, {}
+    prev_users = []
     nontrivial = False
     diverged = False
 
@@ -371,6 +382,37 @@ def check_scenario(res, drv, sc, rec):
         m = re.match(r'c19 (put|get) (\d+) (-?\d+)', op['line'])
         if m:
             amounts[int(m.group(2))] = int(m.group(3))
+        mp = re.match(r'c19 put (\d+) -?\d+ (-?\d+) (-?\d+) (\d+) (\d+) (\d+)', op['line'])
+        if mp:
+            req_key[int(mp.group(1))] = (int(mp.group(2)), int(mp.group(3)), int(mp.group(4)))
+            req_pre[int(mp.group(1))] = mp.group(5) == '1'
+            req_proc[int(mp.group(1))] = int(mp.group(6))
+        # preemption rule (statement): only a preempting request evicts, the victim is the worst current user and is
+        # strictly worse than the request in (priority, time)
+        cur_users = list(prev_users)
+        for (vproc, bproc, _since, _own) in op['preempted']:
+            # (the evicting request is the latest request of the process named in the Preempted cause; it may have
+            # been queued earlier and is served now)
+            mine = [r for r, pr in req_proc.items() if pr == bproc]
+            by = max(mine) if mine else None
+            cands = [u for u in cur_users if req_proc.get(u) == vproc]
+            if by is None or not cands:
+                continue
+            victim = max(cands, key=lambda u: req_key.get(u, (0, 0, 0)))
+            worst = max(cur_users, key=lambda u: req_key.get(u, (0, 0, 0))[:2])
+            if not req_pre.get(by, True):
+                res.violation({'clause': 'preempt_rule', 'kind': kind}, '%s: the non-preempting request %d evicted a user' % (kind, by),
+                              dict(case, op_index=i))
+            if req_key[victim] <= req_key[by]:
+                res.violation({'clause': 'preempt_rule', 'kind': kind},
+                              '%s: request %d (priority, time, non-preempting) %s evicted user %d with %s, which is not worse'
+                              % (kind, by, req_key[by], victim, req_key[victim]), dict(case, op_index=i))
+            if req_key[victim][:2] < req_key[worst][:2]:
+                res.violation({'clause': 'preempt_rule', 'kind': kind},
+                              '%s: user %d %s was evicted although user %d %s is worse'
+                              % (kind, victim, req_key[victim][:2], worst, req_key[worst][:2]), dict(case, op_index=i))
+            cur_users = [u for u in cur_users if u != victim] + [by]
+        prev_users = list(op['snap']['users'])
         reply = drv.ask(op['line'])
         meta = op['meta']
         if meta['op'] == 'cancel-put':
